@@ -48,6 +48,9 @@ Proof.
   destruct (lclass k); try discriminate; reflexivity.
 Qed.
 
+Lemma tl_get_exact_congr0 : forall cls k i d s t, cls (k + i) = KExact -> seq_at cls k s t -> tl_get i d s = tl_get i d t.
+Proof. intros. unfold tl_get. erewrite get_exact_congr; eauto. Qed.
+
 Theorem observe_congr : forall g s t, obs_eq s t -> observe g s = observe g t.
 Proof.
   intros g s t H. apply obs_eq_split in H. destruct H as [Hl Hg]. destruct s as [l gl]. destruct t as [l' gl']. cbn [fst snd] in *.
@@ -66,8 +69,8 @@ Proof.
   - eapply tl_get_dict_congr; eauto. reflexivity.
   - eapply tl_peek_congr; eauto.
   - eapply tl_get_none_congr; eauto. reflexivity.
-  - rewrite (tl_get_none_congr gclass 0 g_dynamic_evaluate gl gl'); auto.
-    unfold tl_get at 1 3. rewrite (get_exact_congr lclass 0 k_dynamic_evaluate l l'); auto.
+  - unfold get_dynamic_evaluate_fn. rewrite (tl_get_none_congr gclass 0 g_dynamic_evaluate gl gl'); auto.
+    match goal with |- tl_get ?k ?d l = tl_get ?k ?d l' => exact (tl_get_exact_congr0 lclass 0 k d l l' eq_refl Hl) end.
   - eapply tl_peek_congr; eauto.
 Qed.
 
@@ -153,6 +156,20 @@ Proof.
   split; auto. apply tl_push_congr; auto.
 Qed.
 
+Lemma load_types_enter_congr : forall a l l' g g', seq_at gclass 0 g g' ->
+  match load_types_enter a l g, load_types_enter a l' g' with
+  | Some (l1, g1, sv), Some (l1', g1', sv') => l1 = l /\ l1' = l' /\ sv = sv' /\ seq_at gclass 0 g1 g1'
+  | _, _ => False
+  end.
+Proof.
+  intros a l l' g g' H. unfold load_types_enter, tl_get.
+  destruct (stack_get_congr gclass 0 g_ondemand_types g g' eq_refl H) as [Q|[[Q1 Q2]|[Q1 Q2]]].
+  - rewrite Q. match goal with |- context [if ?b then _ else _] => destruct b end;
+      repeat split; auto; apply tl_push_congr; auto.
+  - rewrite Q1, Q2. cbn [truthy v_none]. repeat split; auto. apply tl_push_congr; auto.
+  - rewrite Q1, Q2. cbn [truthy v_none]. repeat split; auto. apply tl_push_congr; auto.
+Qed.
+
 Definition enter_rel_state (r1 r2 : option (state * list val)) : Prop :=
   match r1, r2 with
   | Some (s1, sv), Some (t1, sv') => sv = sv' /\ obs_eq s1 t1
@@ -185,18 +202,19 @@ Proof.
   - apply detour_enter_congr; auto.
   - apply detour_enter_congr; auto.
   - apply timeit_enter_congr; auto.
-  - unfold dyn_enter, enter_rel_state.
-    rewrite (tl_get_none_congr gclass 0 g_dynamic_evaluate (snd s) (snd t) eq_refl Hg).
-    destruct (negb (is_none (tl_get g_dynamic_evaluate v_none (snd t)))); auto.
-    rewrite (tl_has_exact_congr lclass 0 k_dynamic_evaluate (fst s) (fst t) eq_refl Hl).
-    rewrite (tl_get_exact_congr lclass 0 k_dynamic_evaluate v_none (fst s) (fst t) eq_refl Hl).
+  - destruct s as [l g], t as [l' g']. cbn [fst snd] in *. rewrite !dyn_enter_thread. unfold enter_rel_state.
+    rewrite (tl_get_none_congr gclass 0 g_dynamic_evaluate g g' eq_refl Hg).
+    destruct (is_none (tl_get g_dynamic_evaluate v_none g')); auto.
+    rewrite (tl_has_exact_congr lclass 0 k_dynamic_evaluate l l' eq_refl Hl).
+    rewrite (tl_get_exact_congr lclass 0 k_dynamic_evaluate v_none l l' eq_refl Hl).
     split; auto. apply obs_eq_split. cbn [fst snd]. split; auto. apply tl_set_congr; auto.
-  - unfold dyng_enter, enter_rel_state.
-    rewrite (tl_get_none_congr gclass 0 g_dynamic_evaluate (snd s) (snd t) eq_refl Hg).
+  - destruct s as [l g], t as [l' g']. cbn [fst snd] in *. rewrite !dyn_enter_global. unfold enter_rel_state.
+    rewrite (tl_get_none_congr gclass 0 g_dynamic_evaluate g g' eq_refl Hg).
     split; auto. apply obs_eq_split. cbn [fst snd]. split; auto. apply tl_set_congr; auto.
-  - unfold loadtypes_enter, enter_rel_state.
-    rewrite (tl_peek_congr gclass 0 g_ondemand_types v_empty_dict (snd s) (snd t) Hg).
-    split; auto. apply obs_eq_split. cbn [fst snd]. split; auto. apply tl_push_congr; auto.
+  - destruct s as [l g], t as [l' g']. cbn [fst snd] in *. unfold loadtypes_enter, lift2_enter. cbn [fst snd].
+    pose proof (load_types_enter_congr a l l' g g' Hg) as C.
+    destruct (load_types_enter a l g) as [[[l1 g1] sv]|]; destruct (load_types_enter a l' g') as [[[l1' g1'] sv']|]; try contradiction.
+    destruct C as [-> [-> [-> C]]]. unfold enter_rel_state. split; auto. apply obs_eq_split. cbn [fst snd]. split; auto.
 Qed.
 
 (* --- programs cannot tell equivalent states apart ---------------------------------------------------------- *)
